@@ -456,6 +456,12 @@ def contains(eng, x, container, node):
         return c.present[key]
     if isinstance(c, VStr) and isinstance(xv, VStr) and c.s is not None and xv.s is not None:
         return z3.BoolVal(xv.s in c.s)
+    if isinstance(c, VObj):
+        con = C.find_method(c.cls, "__contains__")
+        if con is not None:
+            r = eng.call_contract(con, [container, x], {}, node, eng.cur_frame)
+            return eng.truth(r)
+        return fresh_bool("in_obj")
     if isinstance(c, (VOpaque, VChunks, VStr)):
         return fresh_bool("in")
     raise OutOfSubset(node, f"`in` on {c!r}")
@@ -569,7 +575,7 @@ def subscript(eng, base, idx, node):
             return VOpaque(tag="item")
         return eng.opaque_call("<getitem of opaque>", [], node, havoc_args=False)
     if isinstance(b, VObj):
-        return eng.call_method(base, "__getitem__", [idx], {}, node, None)
+        return eng.call_method(base, "__getitem__", [idx], {}, node, eng.cur_frame)
     raise OutOfSubset(node, f"subscript of {b!r}")
 
 
@@ -631,7 +637,7 @@ def del_subscript(eng, base, idx, node):
             eng.heap[base.addr] = VDict(z3.Store(b.present, key, False), b.value, b.ksort, b.vsort)
             return
         if isinstance(b, VObj):
-            eng.call_method(base, "__delitem__", [idx], {}, node, None)
+            eng.call_method(base, "__delitem__", [idx], {}, node, eng.cur_frame)
             return
     if isinstance(base, VOpaque):
         eng.opaque_call("<delitem of opaque>", [], node)
